@@ -81,7 +81,8 @@ PROPS = {
               'identifier regexes, real and near-miss ranges). Each rule is loaded from its YAML through SerializableRuleCore and evaluated on every node (root included, <= 900 nodes per source) of '
               'corpus excerpts and error-ridden variants without zero-width nodes; RuleCore::match_node(n).is_some() must equal the reference. evaluations = (rule, node) pairs. '
               'Non-trivial = distinct (source, rule) pairs where the rule is true on >= 1 node and false on >= 1 node.'
-              ' Additions: `field` is generated with every stopBy; recursive utilities (self / forward reference below a relation with stopBy neighbor); utilities used more than once lose their captures (the statement quantifies over variable-disjoint sub-patterns); rule / tree combinations above an estimated 1e10 atom evaluations are not started.'),
+              ' Additions: `field` is generated with every stopBy; recursive utilities (self / forward reference below a relation with stopBy neighbor); utilities used more than once lose their captures (the statement quantifies over variable-disjoint sub-patterns); rule / tree combinations above an estimated 1e10 atom evaluations are not started.'
+              ' Every other document without untracked references is loaded together with global utilities that carry the ids of its local utilities (regex `.`: they would let in whatever the local utility rejects).'),
         floor={'quick': 500000, 'thorough': 10000000},
         level_text='Millions of (rule, node) evaluations per run against an independent evaluator over parent()/children(); disagreements are shrunk and attributed; held on the rules and trees executed.',
         level_note=('Trusted: refsem/rule_bool.rs (written from the rule reference and the schema descriptions), the regex crate, Pattern atoms (judged by C02/C03), tree-sitter child_by_field_name. '
@@ -96,7 +97,8 @@ PROPS = {
               'generator. (a) synthetic JavaScript sibling lists f(1); g(2); { h(1); } last(); ... evaluated under permutations of the statements, (b) excerpts of all 23 corpus languages with '
               'patterns cut from them and variables renamed into the shared pool. For every node: outcome and the full environment (single and multi captures by byte range, label `secondary` ignored) '
               'must equal the reference. evaluations = (document, source, node) triples. Non-trivial = distinct documents in which some name occurs in >= 2 patterns and which match >= 1 node and reject >= 1 node.'
-              ' Additions: (c) the repeated-hole and repeated-ellipsis oracles -- two sub-trees (two bracketed lists) of one kind inside a host node are abstracted by the same variable, one of them is then replaced by the other\'s text, by a truncation at a child boundary, by an emptied / shortened list or by another node of the file, the host is re-parsed, and a match is a violation whenever the two occurrences spell different token sequences (premises: the pattern parses without ERROR and contains the variable twice; identical text is identical code). Constrained global utilities are referenced on the node, behind has/inside/follows/precedes and inside `any`.'),
+              ' Additions: (c) the repeated-hole and repeated-ellipsis oracles -- two sub-trees (two bracketed lists) of one kind inside a host node are abstracted by the same variable, one of them is then replaced by the other\'s text, by a truncation at a child boundary, by an emptied / shortened list or by another node of the file, the host is re-parsed, and a match is a violation whenever the two occurrences spell different token sequences (premises: the pattern parses without ERROR and contains the variable twice; identical text is identical code). Constrained global utilities are referenced on the node, behind has/inside/follows/precedes and inside `any`.'
+              ' Fields: the environment reference implements `field` for inside / has, and one document in five (corpus part) is a field-restricted search with capturing sub-patterns.'),
         floor={'quick': 1000000, 'thorough': 20000000},
         level_text='Millions of (rule, node) evaluations with shared variable names; environments compared exactly; held on the documents and permutations executed.',
         level_note=('Trusted: refsem/rule_env.rs (conjunction order atomic->composite->relational as documented, `any` first winning branch, relations nearest-first with every candidate starting from the '
@@ -127,7 +129,8 @@ PROPS = {
               '(or cover it when expanded, without leaving the parent), replace_all must be ordered/disjoint and as numerous as the visitor\'s matches, AstGrep::replace must yield exactly the '
               'original with the first range substituted, and for single-line captures the transformed value must equal the harness splice of the first-matching, non-overlapping rewriter edits. '
               'evaluations = generated (pattern, source) cases. Non-trivial = distinct (source, rule) with >= 2 edits, or multi-byte text within 16 bytes of an edit, or an expansion that moved a boundary, or >= 1 rewriter sub-edit.'
-              ' Additions: rewrite transformations use one or two rewriters whose kinds are taken from the captured sub-tree (nested rewriter matches are frequent), joinBy in half of the cases.'),
+              ' Additions: rewrite transformations use one or two rewriters whose kinds are taken from the captured sub-tree (nested rewriter matches are frequent), joinBy in half of the cases.'
+              ' Expansion rules that mention a variable bound by the match (`expandEnd: {pattern: $V}`): the sibling reached must be the same text as the binding.'),
         floor={'quick': 2000, 'thorough': 50000},
         level_text='~100 k edits per quick run are individually asserted and the rewritten text compared with an independent splice; held on the rewrites executed.',
         level_note='Trusted: the harness splice, the overlap-free visitor as enumeration of matches (judged by C01). Multi-line rewriter captures and rewriters with expansions are checked for invariants only (valid UTF-8, no panic).',
@@ -157,7 +160,8 @@ PROPS = {
               'nthChild.ofRule / mutually, every kind-giving atom removed (must be rejected), self-reference through has (either outcome). Unperturbed twins must load; every accepted document is run on '
               'a matching source and generate_replacement must equal the reference expansion over captured and transformed values. Cyclic documents are never executed. '
               'evaluations = documents. Non-trivial = distinct perturbed documents (classes are counted separately in the evidence).'
-              ' Additions: 40 000 (quick) / 1 000 000 (thorough) documents; the reference to a utility sits in one of twelve positions (all relations, stopBy, nthChild.ofRule, any, constraints ...); further perturbation classes: exactly one reference renamed to an undefined id, undefined utility inside a rewriter, transformation cycle through `rewrite`, kind-less local utility shadowing a global utility that has kinds.'),
+              ' Additions: 40 000 (quick) / 1 000 000 (thorough) documents; the reference to a utility sits in one of twelve positions (all relations, stopBy, nthChild.ofRule, any, constraints ...); further perturbation classes: exactly one reference renamed to an undefined id, undefined utility inside a rewriter, transformation cycle through `rewrite`, kind-less local utility shadowing a global utility that has kinds.'
+              ' Further classes: a rewriter\'s own utils with a dangling reference; transformation names run against the dependency order in half of the documents and every substring / replace / convert value of the chain is recomputed from the captured text.'),
         floor={'quick': 2000, 'thorough': 100000},
         level_text='Every perturbation class is exercised hundreds (quick) to thousands (thorough) of times with randomised surrounding parts; acceptance and the converse replacement clause are asserted per document.',
         level_note='Trusted: the generator\'s knowledge of which perturbation is inconsistent (by construction), refsem/template.rs, transformed values as computed by the implementation (their arithmetic is C20\'s).',
@@ -189,7 +193,8 @@ PROPS = {
               'suppressed iff an own-line directive on L-1 or a trailing directive on L lists r or nothing; a directive is unused iff it suppressed nothing. Compared with CombinedScan::scan (matches and '
               'unused-suppression entries, per-line multiplicities) and, for 130 (quick) / 1200 (thorough) of the same files, with the records of `ast-grep scan --json=stream` in a project with rule files. '
               'evaluations = files. Non-trivial = distinct files with >= 2 directives, >= 2 findings and at least one id list.'
-              ' Additions: two twin rules (r1b, a3) report the same nodes as r1 / r3 under ids that are prefixes of each other and sort on either side; two- and three-line statements with a comment inside (enabled per language after checking that the rules match the form); empty lines; id separators `, ` `,` ` , ` ` ,`; 30 000 (quick) / 600 000 (thorough) files.'),
+              ' Additions: two twin rules (r1b, a3) report the same nodes as r1 / r3 under ids that are prefixes of each other and sort on either side; two- and three-line statements with a comment inside (enabled per language after checking that the rules match the form); empty lines; id separators `, ` `,` ` , ` ` ,`; 30 000 (quick) / 600 000 (thorough) files.'
+              ' C files also contain preprocessor lines (a previous sibling whose node includes its line break).'),
         floor={'quick': 3000, 'thorough': 100000},
         level_text='Thousands of generated files per quick run, every finding and every directive judged by the line model; held on the placements executed.',
         level_note='Trusted: the line model (harness/src/mon/c14.rs::model, written from the statement), the six rules of each language (four statements, two of them reported by a twin rule as well) firing exactly once per statement, two- and three-line spellings enabled per language after checking that the rules match them (asserted: the rules must load; unsuppressed findings are compared with multiplicity).',
@@ -205,7 +210,8 @@ PROPS = {
               'lines [line(start)-B, line(end)+A] clipped to the file; charCount == characters of `lines` before/after the match; replacementOffsets a character-aligned range of the file; stdout parses as one '
               'JSON array (or one object per line) for any number of files; every path:N:text line of the plain report carries line N of that file. '
               'evaluations = CLI invocations. Non-trivial = distinct records preceded on their line by a multi-byte character, spanning lines, touching file start/end or carrying context, plus plain reports with >= 1 line.'
-              ' Additions: empty lines inside multi-line calls and around statements.'),
+              ' Additions: empty lines inside multi-line calls and around statements.'
+              ' Files starting with a byte order mark.'),
         floor={'quick': 300, 'thorough': 5000},
         level_text='Thousands of records per quick run are recomputed from the bytes on disk; held on the files, patterns, styles and context settings executed.',
         level_note='Trusted: python json and utf-8 decoding, the 60-line oracle in drivers/c16.py. Record ORDER is not judged.',
@@ -219,7 +225,8 @@ PROPS = {
               'dir/**/*.ext and exact paths; 6 (quick) / 12 (thorough) invocations per project from the project root with none / blanket / per-id / mixed --error|--warning|--info|--hint|--off overrides or --filter. '
               'The observed set of (file, ruleId, severity) must equal applies(rule, file) = language AND (no files OR some files glob) AND no ignores glob AND effective severity != off AND id passes the filter, '
               'and exit status != 0 iff some reported finding has effective severity error. evaluations = invocations. Non-trivial = distinct invocations in which a glob or an override (not only the language) decides for some pair.'
-              ' Additions: languageGlobs also re-assign extensions of built-in languages (ts, h, json, mjs, pyi).'),
+              ' Additions: languageGlobs also re-assign extensions of built-in languages (ts, h, json, mjs, pyi).'
+              ' 40% of the rules carry a fix.'),
         floor={'quick': 300, 'thorough': 10000},
         level_text='Hundreds (quick) to ~18 000 (thorough) invocations over generated layouts; every (rule, file) pair is decided by the independent predicate; held on the projects executed.',
         level_note='Trusted: the 15-line glob matcher restricted to forms whose meaning does not depend on `*` crossing `/`, the extension table copied from the language reference. Paths are taken relative to the project root without `./`.',
@@ -250,7 +257,8 @@ PROPS = {
               '(`scan --json=stream -U` prints the diffs in application order without writing). Oracle per file: after == original with the accepted edits substituted, where an announced edit is '
               'accepted unless it overlaps an earlier accepted one; files without accepted edits and all config files byte-identical; `Applied N changes` == number of accepted edits. '
               'evaluations = update invocations. Non-trivial = distinct (file, rule set) with >= 2 accepted edits, or a dropped overlapping edit, or a file written more than once (several documents).'
-              ' Additions: 240 (quick) / 2400 (thorough) projects in parallel; js/tsx/rs files; rules on single JavaScript node kinds (adjacent, nested and equal ranges), fixes that really expand (numbers followed by commas, expandStart), six `run` pattern/rewrite pairs; files start with blank lines / CRLF in half of the cases.'),
+              ' Additions: 240 (quick) / 2400 (thorough) projects in parallel; js/tsx/rs files; rules on single JavaScript node kinds (adjacent, nested and equal ranges), fixes that really expand (numbers followed by commas, expandStart), six `run` pattern/rewrite pairs; files start with blank lines / CRLF in half of the cases.'
+              ' A fix that expands on both sides (neighbouring matches propose partially overlapping edits).'),
         floor={'quick': 60, 'thorough': 2000},
         level_text='Hundreds of update runs per quick tier with ~1000 accepted and ~800 dropped (overlapping) edits, every file compared byte for byte; held on the projects executed.',
         level_note='Trusted: the --json announcement of the same binary as statement of intent (its positions are judged by C16), the 10-line splice.',
